@@ -6,6 +6,7 @@ import (
 	"context"
 	"errors"
 	"os"
+	"time"
 
 	zz "github.com/basekick-labs/arc/internal/zzverif"
 	"github.com/rs/zerolog"
@@ -74,5 +75,43 @@ func VerifC05RecoveryWindow() {
 	zz.Known("C05-wal-file-deleted-while-recovered-rows-only-in-memory", zz.Symbolic() && allReplayed)
 	zz.Assert(stillOnDisk, "recovery deleted the WAL file although its acknowledged rows are not durable anywhere: a crash right after recovery loses them")
 	zz.ClearKnown()
+	zz.Reach("end")
+}
+
+// VerifC05RawAliasing: a raw (zero-copy) columnar write is acknowledged by AppendRawWithMeta,
+// whose caller hands it the HTTP request body without a copy. The writer goroutine gets to
+// the queued entry only later - after the request returned and the server reused that
+// buffer for the next request. What reaches the WAL file must still be the bytes that were
+// acknowledged: entry header, envelope, and the ORIGINAL payload.
+func VerifC05RawAliasing() {
+	zz.ClockFixed(1700000000000000000)
+	dir := zz.TempPath("waldir")
+	if err := os.MkdirAll(dir, 0o700); err != nil {
+		panic(err)
+	}
+	path := dir + "/arc-20231114_221320.wal"
+	f, err := os.OpenFile(path, os.O_CREATE|os.O_WRONLY, 0o600)
+	if err != nil {
+		panic(err)
+	}
+	w := &Writer{entryChan: make(chan walEntry, 8), currentFile: f, currentPath: path, startTime: time.Now(),
+		config: WriterConfig{SyncBytes: 1 << 40, MaxSizeBytes: 1 << 40, MaxAge: 1000 * time.Hour}, logger: zerolog.Nop()}
+	body := zz.Bytes("request_body", 4) // the server's request buffer
+	orig := append([]byte(nil), body...)
+	zz.Assert(w.AppendRawWithMeta("db", body) == nil, "append")
+	e := <-w.entryChan
+	// the handler has returned; the next request is read into the same buffer
+	next := zz.Bytes("next_request_body", 4)
+	copy(body, next)
+	w.writeEntry(e) // what writerLoop does with a queued entry
+	_ = f.Close()
+	got, ok := zz.FSFileBytes(path)
+	zz.Assert(ok, "no WAL file")
+	env := 1 + 2 + len("db")
+	zz.Assert(len(got) == WALEntryHeaderSize+env+len(orig), "the WAL entry does not have the length of what was acknowledged")
+	if len(got) == WALEntryHeaderSize+env+len(orig) {
+		zz.Assert(zz.EqBytes(got[WALEntryHeaderSize+env:], orig), "the WAL holds other payload bytes than the write that was acknowledged (request buffer reused before the writer goroutine wrote the entry)")
+		zz.Assert(got[WALEntryHeaderSize] == WALEnvelopeMarker && string(got[WALEntryHeaderSize+3:WALEntryHeaderSize+env]) == "db", "envelope changed")
+	}
 	zz.Reach("end")
 }
